@@ -15,6 +15,19 @@ KF_C38_lcs(ev) == FALSE
 (* change, and the default report filtered everything (exit 0).                                                            *)
 KF_C05_union(ev) == ev.inUnion /\ ev.kinds = <<"member-type">> /\ ev.exit = 0
 
+(* C05: same mechanism, without a union: libabigail attaches *no* category to a return-type change, to a member-type change   *)
+(* that keeps sizes and offsets, or to a changed enumerator value; diff::priv::is_filtered_out reports a node whose category  *)
+(* set is empty, but filters one whose set holds only harmless categories -- so such a change is hidden as soon as the same    *)
+(* interface also carries a change that has a harmless category (a parameter that became top-level const, an appended         *)
+(* enumerator, a renamed typedef).  Classified as this finding only if the breaking entry is of one of these kinds, every      *)
+(* interface it touches is also touched by a harmless entry of the pair, and `--harmless` on the same pair does list an        *)
+(* affected interface (the change was computed and then filtered, not missed).                                                 *)
+C05_UncategorizedKinds == {"return-type", "member-type", "enumerator-value"}
+KF_C05_beside(ev) ==
+  /\ Len(ev.kinds) = 1 /\ ev.kinds[1] \in C05_UncategorizedKinds
+  /\ ev.affected # <<>> /\ \A i \in 1..Len(ev.affected) : \E j \in 1..Len(ev.hlTouched) : ev.hlTouched[j] = ev.affected[i]
+  /\ \E i \in 1..Len(ev.affected) : \E j \in 1..Len(ev.hnamed) : ev.hnamed[j] = ev.affected[i]
+
 (* C11 / C19: the default-version re-export rule (see CorpusDiff!KF_DefaultVersionReexport for the structural predicate). *)
 (* These flags only say whether the finding is listed in known-findings.jsonl.                                            *)
 KF_C11_listed == TRUE
